@@ -317,6 +317,10 @@ func (intr *treeInterpreter) Execute(node ASTNode, value interface{}) (interface
 // interfaceOf returns the Go value held by v as the interpreter should see
 // it: a nil pointer is null, like its JSON form.
 func interfaceOf(v reflect.Value) interface{} {
+	if !v.CanInterface() {
+		// an unexported struct field: not part of the data
+		return nil
+	}
 	if v.Kind() == reflect.Ptr && v.IsNil() {
 		return nil
 	}
